@@ -42,17 +42,17 @@ def recorder(S, me, name):
     return rec
 
 
-def handler_env(S, meth, names=None):
+def handler_env(S, meth, names=None, cls=CLS):
     import ast
     from pyvc import repo
-    me = environment(S, CLS, symbolic_compat_mode=(meth == "startTagTable"))
+    me = environment(S, cls, symbolic_compat_mode=(meth == "startTagTable"))
     me.fields["ghost_ops"] = S.list([])
     ops = me.fields["ghost_ops"]
     tree = me.fields["tree"]
     parser = me.fields["parser"]
     # every other method of the phase is a recorded call
     for c in ast.walk(repo.module_ast(MOD)):
-        if isinstance(c, ast.ClassDef) and c.name in (CLS, "Phase"):
+        if isinstance(c, ast.ClassDef) and c.name in (cls, "Phase"):
             for f in c.body:
                 if isinstance(f, ast.FunctionDef) and not f.name.startswith("__"):
                     # (the handler under contract is entered directly by the engine: overriding its own name only
@@ -113,19 +113,19 @@ def grew_by(old, self, n):
     return len(self.tree.openElements) == len(old.self.tree.openElements) + n
 
 
-def _mk(meth, names, clause_fn):
+def _mk(meth, names, clause_fn, cls=CLS):
     class HandlerFollowsTheStandard:
         props = ("C01",)
         modular = False
         raises = {"IndexError": True, "AssertionError": True}
 
         def inputs(S):
-            return handler_env(S, meth, names)
+            return handler_env(S, meth, names, cls)
 
         follows_the_standard = ensures("C01")(bounded(BOUND)(clause_fn))
-    HandlerFollowsTheStandard.__name__ = "InBody_" + meth
+    HandlerFollowsTheStandard.__name__ = "%s_%s" % (cls, meth)
     HandlerFollowsTheStandard.__qualname__ = HandlerFollowsTheStandard.__name__
-    return contract("%s.%s.%s" % (MOD, CLS, meth))(HandlerFollowsTheStandard)
+    return contract("%s.%s.%s" % (MOD, cls, meth))(HandlerFollowsTheStandard)
 
 
 # --- "address", "article", ..., "ul": close a p element if one is in button scope; insert
@@ -381,3 +381,77 @@ HANDLERS = [
 
 for _m, _names, _fn in HANDLERS:
     globals()["InBody_" + _m] = _mk(_m, _names, _fn)
+
+
+# ------------------------------------------------------------------------------------------- "in head" insertion mode
+# --- head: parse error, ignore
+def spec_head_ignore(old, self, token, result):
+    return result is None and ops_are(self, []) and grew_by(old, self, 0)
+
+
+# --- base, basefont, bgsound, link (and the obsolete command): insert, pop at once, acknowledge the solidus
+def spec_head_void(old, self, token, result):
+    return (result is None and ops_are(self, [("insert", token)]) and grew_by(old, self, 0)
+            and token["selfClosingAcknowledged"] is True)
+
+
+# --- title: generic RCDATA element parsing; noframes, style: generic raw text element parsing
+def spec_head_title(old, self, token, result):
+    return result is None and ops_are(self, [("rawtext", token, "RCDATA")])
+
+
+def spec_head_rawtext(old, self, token, result):
+    return result is None and ops_are(self, [("rawtext", token, "RAWTEXT")])
+
+
+# --- noscript: raw text with scripting; otherwise insert and switch to "in head noscript"
+def spec_head_noscript(old, self, token, result):
+    if old.self.parser.scripting:
+        return result is None and ops_are(self, [("rawtext", token, "RAWTEXT")])
+    return (result is None and ops_are(self, [("insert", token)]) and grew_by(old, self, 1)
+            and same_object(self.parser.phase, self.parser.phases["inHeadNoscript"]))
+
+
+# --- script: insert; tokenizer to script data; remember the insertion mode; switch to "text"
+def spec_head_script(old, self, token, result):
+    return (result is None and ops_are(self, [("insert", token)]) and grew_by(old, self, 1)
+            and self.parser.tokenizer.state == self.parser.tokenizer.scriptDataState
+            and same_object(self.parser.originalPhase, old.self.parser.phase)
+            and same_object(self.parser.phase, self.parser.phases["text"]))
+
+
+# --- </head>: pop the head element, switch to "after head"
+def spec_head_end(old, self, token, result):
+    return (result is None and ops_are(self, []) and grew_by(old, self, -1)
+            and same_object(self.parser.phase, self.parser.phases["afterHead"]))
+
+
+# --- anything else (other start tags, </body>, </html>, </br>, characters): act as if </head> had been seen, reprocess
+def spec_head_anything_else_reprocess(old, self, token, result):
+    return same_object(result, token) and ops_are(self, [("call", "anythingElse", None)])
+
+
+def spec_head_anything_else(old, self, result):
+    return result is None and ops_are(self, [("call", "endTagHead", "head")])
+
+
+# --- any other end tag: parse error, ignore
+def spec_head_end_other(old, self, token, result):
+    return result is None and ops_are(self, []) and grew_by(old, self, 0)
+
+
+IN_HEAD = [
+    ("startTagHead", ["head"], spec_head_ignore),
+    ("startTagBaseLinkCommand", ["base", "basefont", "bgsound", "command", "link"], spec_head_void),
+    ("startTagTitle", ["title"], spec_head_title),
+    ("startTagNoFramesStyle", ["noframes", "style"], spec_head_rawtext),
+    ("startTagNoscript", ["noscript"], spec_head_noscript),
+    ("startTagScript", ["script"], spec_head_script),
+    ("endTagHead", ["head"], spec_head_end),
+    ("startTagOther", None, spec_head_anything_else_reprocess),
+    ("endTagHtmlBodyBr", ["br", "html", "body"], spec_head_anything_else_reprocess),
+    ("endTagOther", None, spec_head_end_other),
+]
+
+for _m, _names, _fn in IN_HEAD:
+    globals()["InHead_" + _m] = _mk(_m, _names, _fn, "InHeadPhase")
